@@ -253,6 +253,18 @@ def all_single(v):
     return True
 
 
+def header_datetimes():
+    """instants whose UTC calendar day differs from the local one (and some that do not), naive ones included"""
+    import datetime as _dt
+    out = []
+    for off in (0, 330, -210, 840, -840, 60):
+        for (h, m) in ((0, 30), (23, 45), (12, 0)):
+            out.append(_dt.datetime(2013, 1, 1, h, m, 7, tzinfo=tagged.tz(off)))
+    out.append(_dt.datetime(2020, 2, 29, 23, 59, 59))
+    out.append(_dt.datetime(1999, 12, 31, 0, 0, 0, tzinfo=tagged.tz(-60)))
+    return out
+
+
 def ret_cases(tier):
     """single primitive return values: (atom id, type, [(label, value)])"""
     out = []
@@ -281,13 +293,15 @@ def run_shard(shard):
             do_program(program, [('v%d' % i, [v, 7]) for i, v in enumerate(vals)], res, tier, 'B', shape_sig(shape))
     elif shard['kind'] == 'ret':
         for aid, at, vals in ret_cases(tier):
-            program = {'tns': TNS, 'classes': [{'n': 'H', 'fields': [['hx', I], ['hs', U]]}],
+            program = {'tns': TNS, 'classes': [{'n': 'H', 'fields': [['hx', I], ['hs', U], ['hd', ['p', 'DateTime', {}]], ['hb', ['p', 'Boolean', {}]]]}],
                        'services': [{'n': 'S', 'methods': [{'n': 'm', 'args': [['z', I]], 'ret': at, 'out_header': ['H']}]}]}
             res['cov']['programs'] += 1
             h = harness.HttpHarness(program)
-            for label, v in vals:
+            hds = header_datetimes()
+            for vi, (label, v) in enumerate(vals):
                 ctx = {'ret': True, 'atom': aid, 'value': tagged.enc(v), 'label': label}
-                o = h.get('m', 'z=1', v, out_header={'H': Obj('H', hx=12, hs='hv')})
+                hd = hds[vi % len(hds)]      # out-header members of other types ride along: a DateTime is sent as an HTTP-date
+                o = h.get('m', 'z=1', v, out_header={'H': Obj('H', hx=12, hs='hv', hd=hd, hb=True)})
                 res['evaluations'] += 1
 
                 def V(kind, what):
@@ -316,8 +330,13 @@ def run_shard(shard):
                 if not ok:
                     V('body', 'body is %r' % (body[:200],))
                 hd = dict((k.lower(), x) for k, x in (o.headers or []))
+                import email.utils
+                want_date = email.utils.format_datetime((hds[vi % len(hds)] if hds[vi % len(hds)].tzinfo is not None else hds[vi % len(hds)].replace(tzinfo=tagged.tz(0)))
+                                                        .astimezone(tagged.tz(0)).replace(microsecond=0), usegmt=True)
                 if hd.get('hx') != '12' or hd.get('hs') != 'hv':
                     V('headers', 'declared out-header fields hx=12, hs=hv not in HTTP headers %r' % (o.headers,))
+                elif hd.get('hd') != want_date:
+                    V('header-date', 'out-header DateTime %r sent as %r, the HTTP-date of that instant is %r' % (hds[vi % len(hds)], hd.get('hd'), want_date))
                 else:
                     res['nontrivial'] += 1
                 res['outcomes']['ret'] = res['outcomes'].get('ret', 0) + 1
